@@ -75,6 +75,10 @@ namespace hgraph
                                                              NodeView failed = nested.child_graph().failed_node();
                                                              write_try_except_error(view, failed, evaluation_time, error);
                                                          });
+            // As in single_nested_graph_evaluate: a forwarding output inside
+            // the child may have re-pointed during this evaluation, so the
+            // flattened output alias is resolved again after the child's turn.
+            single_nested_graph_bind_output(nested, evaluation_time);
             single_nested_graph_propagate_schedule(nested);
             return completed;
         }
